@@ -139,6 +139,7 @@ class Crate:
         self.by_path = {}
         self._nolife = None
         self._byname = None
+        self._reviewed = None
         self.by_dp = {}
         for f in self.fns:
             self.by_path.setdefault(f.path, []).append(f)
@@ -166,6 +167,40 @@ class Crate:
                         self._byname.setdefault((f.path.split("::", 1)[0], f.path.rsplit("::", 1)[1]), []).append(f)
             fs = self._byname.get((top, base), [])
         return fs[0] if len(fs) == 1 else None
+
+    def is_new(self, path):
+        """Not a function of the reviewed tree (after rename normalisation): an extracted helper, a worker a function
+        was split into.  Without a reviewed vocabulary nothing counts as new."""
+        if self._reviewed is None:
+            from . import rename
+            b = rename.baseline()["fns"].get("%s.%s" % (self.name, self.config))
+            self._reviewed = set(b) if b else False
+        if self._reviewed is False:
+            return False
+        owner = path.split("::{closure", 1)[0]
+        return owner not in self._reviewed
+
+    def parts_of(self, path):
+        """The function together with what it was split into: its closures, and - transitively - the *new* local
+        functions it calls and their closures.  Rules that read one function's body read its parts."""
+        root = self.fn(path)
+        if root is None:
+            return []
+        out, work, seen = [], [root], set()
+        while work:
+            f = work.pop(0)
+            if f.path in seen:
+                continue
+            seen.add(f.path)
+            out.append(f)
+            work.extend(self.closures_of(f.path))
+            for _bi, t in f.calls():
+                c = t["callee"]
+                tgt = c.get("resolved") or c.get("path") or ""
+                g = self.fn(tgt) if c.get("resolved_crate", c.get("crate")) == self.name else None
+                if g is not None and g.kind != "closure" and self.is_new(g.path) and g.file == root.file:
+                    work.append(g)
+        return out
 
     def fns_matching(self, pred):
         return [f for f in self.fns if pred(f)]
